@@ -152,13 +152,22 @@ def compilePathW (p : Path) : List MStep :=
      | _ => [{ code := .fromRoot, test := .root, preds := [] }]
    else []) ++ compileStepsW p.steps false
 
+/-- node types the matcher takes for "the root of the tree": the eFROM_ROOT case of `stepPattern` and
+`NodeTester::testRoot` accept `DOCUMENT_NODE` and `DOCUMENT_FRAGMENT_NODE` alike (compared with the source on every run
+by translate/c09_fromroot.py), so an absolute pattern is matched relative to whatever root the node's tree has -/
+def rootTypeAccepted : RootKind → Bool
+  | .document => true       -- nodeType == XalanNode::DOCUMENT_NODE
+  | .fragment => true       -- nodeType == XalanNode::DOCUMENT_FRAGMENT_NODE
+
+@[simp] theorem rootTypeAccepted_eq (k : RootKind) : rootTypeAccepted k = true := by cases k <;> rfl
+
 /-! ## NodeTester -/
 
 /-- `NodeTester::operator()`: `attrTester` is `stepType == eFROM_ATTRIBUTES` at construction
 (selects `testAttribute*` instead of `testElement*` for eNODENAME). -/
 def tester (d : Doc) (attrTester : Bool) (t : MTest) (m : Nat) : Score :=
   match t with
-  | .root => if d.kind m == .root then .other else .none                       -- testRoot
+  | .root => if d.kind m == .root && rootTypeAccepted d.rootKind then .other else .none   -- testRoot
   | .set S => if S.contains m then .other else .none                             -- `n == context` over the node list
   | .t (.name s) =>
     if d.kind m == (if attrTester then Kind.attr else Kind.elem) && d.name m == s then .qname else .none
@@ -270,7 +279,7 @@ def evalStepAt (v : Variant) (d : Doc) (s : MStep) (nextCode : Option Code) (con
   let r : Score × Option Nat × Bool :=
     match s.code with
     | .fromRoot =>
-      if d.kind context == .root then (.other, some context, true)
+      if d.kind context == .root && rootTypeAccepted d.rootKind then (.other, some context, true)
       else if nextCode == some .anyAnc || nextCode == some .anyAncPred then
         let (sc, c) := climb d (tester d false s.test) context context
         (sc, c, true)
@@ -334,7 +343,7 @@ def attrBody (v : Variant) (d : Doc) (s : MStep) (ctx : Nat) : Score :=
 /-- one step tested on one node: the `switch` of `stepPattern` without the loops -/
 def stepAtB (v : Variant) (d : Doc) (s : MStep) (x : Nat) : Score :=
   match s.code with
-  | .fromRoot => if d.kind x == .root then .other else .none
+  | .fromRoot => if d.kind x == .root && rootTypeAccepted d.rootKind then .other else .none
   | .attr => attrBody v d s x
   | .fn _ => tester d false s.test x              -- eOP_FUNCTION: is the node in the call's node-set
   | _ => if d.kind x != .attr then anyBody v d s x else .none
